@@ -81,16 +81,41 @@ Definition c22_history_ok (sect : path -> bool) (good : tree -> Prop) (h : list 
   sect [] = true /\ Forall (op_ok sect good) h.
 
 (* The property as written: after ANY admissible history (multi-key setting
-   dicts included) the state reloaded from the DB has exactly the leaves of
-   the in-memory state. *)
+   dicts and empty dicts included) the state reloaded from the DB has
+   exactly the leaves of the in-memory state. *)
 Definition c22_db_roundtrip_statement : Prop :=
   forall sect tr h, c22_history_ok sect (fun _ => True) h ->
   forall p, get_leaf p (Node (load (s_db (run tr h)))) = get_leaf p (Node (s_mem (run tr h))).
 
-(* FALSE of the code as it stands: get_broadcast_change_iter follows only the
-   first key of each nested dict.  Witness: one put of
-   {100: {101: v0, 102: v1}} (e.g. {'environment': {'A': .., 'B': ..}}) to
-   point 3, namespace 1; the leaf 102 is in memory but not in the DB. *)
+(* It holds of the current code (get_broadcast_change_iter yields every leaf
+   of each modified setting since repo commit bdf8ea5), for all histories of
+   put/clear/expire/flush with any points, namespaces and nested settings. *)
+Theorem c22_db_roundtrip : c22_db_roundtrip_statement.
+Proof.
+  intros sect tr h [Hs F]. apply (roundtrip_gen change_iter (fun _ => True) sect tr h); auto.
+  exact ci_ok_current.
+Qed.
+
+(* Every reachable state satisfies the invariant the theorems above assume,
+   and the DB holds exactly the in-memory leaves. *)
+Theorem c22_reachable_inv : forall sect tr h, c22_history_ok sect (fun _ => True) h ->
+  inv (full sect) (s_mem (run tr h)) /\
+  forall p, db_get p (s_db (run tr h)) = get_leaf p (Node (s_mem (run tr h))).
+Proof.
+  intros sect tr h [Hs F].
+  destruct (run_inv change_iter (fun _ => True) sect tr h ci_ok_current (fun _ _ _ => I) Hs F)
+    as (I0 & _ & E).
+  split; assumption.
+Qed.
+
+(* ---- HISTORICAL: the iterator before the fix ([change_iter_pre_fix]) ----
+   These theorems are about the OLD get_broadcast_change_iter, which followed
+   only the first key of each nested dict.  They document the defect that
+   was found (known finding, now fixed) and say nothing about the current
+   code.  Witness: one put of {100: {101: v0, 102: v1}}
+   (e.g. {'environment': {'A': .., 'B': ..}}) to point 3, namespace 1; with
+   the old iterator the leaf 102 is in memory but not in the DB.  The same
+   witness is a regression case in corpus() of vp/props/c22.py. *)
 Definition c22_witness_sect : path -> bool :=
   fun p => match p with [] => true | [KName 100%N] => true | _ => false end.
 Definition c22_witness_tree : C3.tree := [(0, []); (1, [0])].
@@ -111,52 +136,24 @@ Proof.
     constructor; [reflexivity|]. constructor; [now constructor|]. constructor; [now constructor|constructor].
 Qed.
 
-Theorem c22_db_roundtrip_multikey_refuted :
+Theorem c22_pre_fix_roundtrip_multikey_refuted :
   exists sect tr h, c22_history_ok sect (fun _ => True) h /\
-  exists p, get_leaf p (Node (load (s_db (run tr h)))) <> get_leaf p (Node (s_mem (run tr h))).
+  exists p, get_leaf p (Node (load (s_db (run_with change_iter_pre_fix tr h)))) <>
+            get_leaf p (Node (s_mem (run_with change_iter_pre_fix tr h))).
 Proof.
   exists c22_witness_sect, c22_witness_tree, c22_witness_hist. split; [exact c22_witness_ok|].
   exists [KInt 3; KName 1%N; KName 100%N; KName 102%N]. vm_compute. discriminate.
 Qed.
 
-Theorem c22_db_roundtrip_statement_is_false : ~ c22_db_roundtrip_statement.
+(* the old iterator was right for histories whose accepted settings have
+   exactly one leaf each ([single]: what `cylc broadcast -s` sends) *)
+Theorem c22_pre_fix_roundtrip_single_leaf : forall sect tr h, c22_history_ok sect single h ->
+  forall p, get_leaf p (Node (load (s_db (run_with change_iter_pre_fix tr h)))) =
+            get_leaf p (Node (s_mem (run_with change_iter_pre_fix tr h))).
 Proof.
-  intros H. destruct c22_db_roundtrip_multikey_refuted as (sect & tr & h & Hok & p & Hne).
-  apply Hne. apply (H sect tr h Hok).
-Qed.
-
-(* What does hold of the code as it stands: the round trip for histories in
-   which every accepted setting has exactly one leaf ([single]: what
-   `cylc broadcast -s` sends), for all histories of put/clear/expire with any
-   points, namespaces and flush points. *)
-Theorem c22_db_roundtrip_single_leaf : forall sect tr h, c22_history_ok sect single h ->
-  forall p, get_leaf p (Node (load (s_db (run tr h)))) = get_leaf p (Node (s_mem (run tr h))).
-Proof.
-  intros sect tr h [Hs F]. apply (roundtrip_gen change_iter single sect tr h); auto.
-  - exact ci_ok_current.
+  intros sect tr h [Hs F]. apply (roundtrip_gen change_iter_pre_fix single sect tr h); auto.
+  - exact ci_ok_pre_fix.
   - exact single_chain.
-Qed.
-
-(* After the proposed fix (get_broadcast_change_iter yields every leaf:
-   [change_iter_fixed], proposed_fixes/C22-change-iter-all-leaves.diff) the
-   full statement holds, multi-key and empty dicts included. *)
-Theorem c22_db_roundtrip_after_fix : forall sect tr h, c22_history_ok sect (fun _ => True) h ->
-  forall p, get_leaf p (Node (load (s_db (run_with change_iter_fixed tr h)))) =
-            get_leaf p (Node (s_mem (run_with change_iter_fixed tr h))).
-Proof.
-  intros sect tr h [Hs F]. apply (roundtrip_gen change_iter_fixed (fun _ => True) sect tr h); auto.
-  exact ci_ok_fixed.
-Qed.
-
-(* Every reachable state satisfies the invariant the theorems above assume,
-   and the DB holds exactly the in-memory leaves (single-leaf histories). *)
-Theorem c22_reachable_inv : forall sect tr h, c22_history_ok sect single h ->
-  inv (full sect) (s_mem (run tr h)) /\
-  forall p, db_get p (s_db (run tr h)) = get_leaf p (Node (s_mem (run tr h))).
-Proof.
-  intros sect tr h [Hs F].
-  destruct (run_inv change_iter single sect tr h ci_ok_current single_chain Hs F) as (I & _ & E).
-  split; assumption.
 Qed.
 
 (* ---- non-vacuity ------------------------------------------------------ *)
@@ -202,9 +199,9 @@ Example c22_ex_expire :
    ([KStar; KName 2%N; KName 100%N; KName 101%N], 9%N);
    ([KInt 3; KName 1%N; KName 100%N; KName 101%N], 8%N)].
 Proof. vm_compute. reflexivity. Qed.
-(* the fixed iterator writes both leaves of the witness *)
-Example c22_ex_fixed :
-  s_db (run_with change_iter_fixed c22_witness_tree c22_witness_hist) =
+(* the current iterator writes both leaves of the old witness *)
+Example c22_ex_witness_now :
+  s_db (run c22_witness_tree c22_witness_hist) =
   [([KInt 3; KName 1%N; KName 100%N; KName 101%N], 0%N);
    ([KInt 3; KName 1%N; KName 100%N; KName 102%N], 1%N)].
 Proof. vm_compute. reflexivity. Qed.
